@@ -31,6 +31,8 @@ struct c20_session : public vsim_session {
           pos = q + 1;
         }
       }
+      // '\x1e' inside a word stands for a newline (scenario files are line oriented)
+      for (auto &s : words) std::replace(s.begin(), s.end(), '\x1e', '\n');
       std::vector<unsigned char *> argv;
       for (auto &s : words) argv.push_back((unsigned char *) s.c_str());
       cvm::clear_error();
